@@ -83,7 +83,7 @@ var cancelShapes = []shapeDef{
 	{name: "pushers_buffered", defs: "def pusher(ch: Channel[Int], id: Int)\n  i := 0\n  loop\n    ch << id * 1000 + i\n    i = i + 1\n  end\nend\n", body: "pch := Channel::[Int](2)\ngo pusher(pch, 1)\ngo pusher(pch, 2)\nloop\n  x = x + (try pch.pop)\nend\n"},
 	{name: "await_in_async_loop", defs: "async def leaf(n: Int): Int\n  n + 1\nend\n", body: "loop\n  x = await leaf(x)\nend\n"},
 	// constructs with no context support (D4)
-	{name: "await_sync_never", known: true, defs: "async def hang(ch: Channel[Int]): Int\n  try ch.pop\nend\n", body: "nch := Channel::[Int](0)\nx = await hang(nch)\n"},
+	{name: "await_sync_never", defs: "async def hang(ch: Channel[Int]): Int\n  try ch.pop\nend\n", body: "nch := Channel::[Int](0)\nx = await hang(nch)\n"},
 	{name: "wg_wait", known: true, body: "wgx := Std::Sync::WaitGroup(1)\nwgx.wait\n"},
 	{name: "mutex_lock", known: true, body: "mx := Std::Sync::Mutex()\nmx.lock\nmx.lock\n"},
 	{name: "sleep_long", body: "sleep 1000.hours\n"},
@@ -313,9 +313,10 @@ func (*c33Engine) Execute(t *testing.T, c *Case) *Verdict {
 		}
 		return v
 	}
-	if res.Outcome == "deadlock" && mainDone && onlyIdlePoolWorkers(res.State) {
-		// the main thread and every go thread have ended; what is left are the
-		// workers of the thread pool waiting for tasks
+	if res.Outcome == "deadlock" && mainDone && (onlyIdlePoolWorkers(res.State) || noProgramThreadLeft(res.Origins)) {
+		// the main thread and every go thread have ended; what is left are workers of the
+		// thread pool (idle, or inside a task that never ends: the pool keeps the global
+		// context, as in the REPL) and helper goroutines of the runtime
 		res.Outcome = "ok"
 	}
 	switch res.Outcome {
@@ -379,6 +380,21 @@ func (*c33Engine) Shrink(c *Case) []*Case {
 		}
 	}
 	return out
+}
+
+// noProgramThreadLeft reports whether no live task is a thread of the program: the root
+// task (main thread) or a thread started by the GO instruction (vm/thread.go).
+func noProgramThreadLeft(origins string) bool {
+	if origins == "" {
+		return false
+	}
+	for _, f := range strings.Fields(origins) {
+		o := f[strings.Index(f, ":")+1:]
+		if o == "root" || strings.HasPrefix(o, "vm/thread.go") || strings.HasPrefix(o, "harness") {
+			return false
+		}
+	}
+	return true
 }
 
 // onlyIdlePoolWorkers reports whether every task of a deadlock state vector is
